@@ -180,12 +180,15 @@ const (
 	c16BEmptyMsgs                // DialDataResponse messages with empty data
 	c16BGarbage                  // 4096-byte frames that are not protobuf at all, a little more than NumBytes in total
 	c16BFragmented               // like exact, but written to the stream 13 bytes at a time
+	// whole 4000-byte messages for as long as they fit below NumBytes, then the first 12 bytes of one more such
+	// message and the end of the stream, which the server reads in ONE Read call (n > 0 together with io.EOF)
+	c16BTruncatedLastEOF
 	c16NumBeh
 )
 
 var c16BehNames = []string{"exact", "one-byte-short-then-close", "one-byte-short-then-stall", "100-byte-messages", "99-byte-messages",
 	"50-byte-message-in-the-middle", "oversized-message", "early-close", "half-then-stall", "8186-byte-messages", "varint-edge-sizes",
-	"empty-messages", "garbage-frames", "fragmented-writes"}
+	"empty-messages", "garbage-frames", "fragmented-writes", "truncated-last-message-with-eof"}
 
 type c16FrameRec struct {
 	raw     int  // bytes on the stream (length prefix + message)
@@ -249,6 +252,8 @@ func c16Plan(b c16Beh, n int) (sizes []int, garbage bool, after int) {
 		return out, false, 0
 	case c16BEmptyMsgs:
 		return make([]int, 64), false, 0
+	case c16BTruncatedLastEOF:
+		return chunks((n-1)/4000*4000, 4000), false, 2
 	case c16BGarbage:
 		// the server credits 4090 bytes for a 4096-byte frame; send enough frames for its count to reach n
 		return chunks((n/4090+2)*4096, 4096), true, 0
@@ -393,6 +398,11 @@ func c16Client(cli *c16Stream, o *c16Outcome, reqFrame []byte) {
 		}
 		if ok && after == 1 {
 			cli.Close()
+		}
+		if ok && after == 2 {
+			f := c16Frame(c16DialDataMsg(4000))
+			o.frames = append(o.frames, c16FrameRec{raw: 12, payload: 0})
+			cli.wr.writeAndClose(f[:12])
 		}
 	}
 }
